@@ -121,6 +121,18 @@ CHECKS = {
              "capacities 4..64 through the cfg-gated constructor; the 16 KiB default capacity is not driven (TLC becomes "
              "quadratic on 100 KiB sequences).",
         technique="TLA+ design model + refinement (TLC), trace validation of recorded operation histories against WriterAbs"),
+    "C12": dict(
+        category="model_checking",
+        text="Renumber.tla transcribes lit_defs, initialize and the explicit-stack transfer machine with one action per match "
+             "arm; TLC runs it on every small AIG of several families x 8 option combinations and checks the result kind "
+             "against an independent reference, consecutive numbering, gate order, truth-table equivalence of every root and "
+             "literal-map entry, and termination bounds. Random larger graphs are run through the real renumber_aig with the "
+             "tr hook: every iteration must be the model's next step and the full result (ordered AIG, literal map, or error "
+             "kind and literal) must equal the model's, whose properties are re-evaluated on the recorded result.",
+        design_ref="DESIGN.md §3.8, §5 C12",
+        note="Recorded graphs have at most 6 inputs+latches (2^6 assignments). Exact-result replay of every model-explored "
+             "AIG on the code is not built; deep graphs (10^6 gates) are checked against the closed form only.",
+        technique="TLA+ transcription model-checked by TLC + step-by-step trace validation of the real transfer loop"),
     "C13": dict(
         category="model_checking",
         text="The reference semantics of the four decimal scanners is a TLA+ function of the input bytes with type bounds as "
